@@ -15,7 +15,8 @@
 (*   observation alone, with no assumption about the mechanism, so that    *)
 (*   the C12 invariants give the verdict on executions the model does not  *)
 (*   have (a call outside the semaphore, a release before stopTest ...).   *)
-(* In both modes every C12 invariant is an INVARIANT of the config.        *)
+(* In both modes every C12 invariant is evaluated on every state (INVARIANT *)
+(* lines of the config; BlockShape through the reporting constraint).      *)
 (***************************************************************************)
 EXTENDS Threadsafe, IOUtils
 
@@ -73,8 +74,11 @@ TraceSpec == TraceInit /\ [][TraceNext]_tvars
 
 AtEnd == l = Len(Traces[tid].ev)
 \* printed once per fully consumed trace; with TRACE_PROGRESS=1 also the position reached
+\* BlockShape has an open known finding on the unchanged tree (a whole class of real executions violates it), so it
+\* is evaluated on every state like an INVARIANT but REPORTED per trace instead of stopping the batch
 AcceptC ==
     /\ IOEnv.TRACE_PROGRESS = "1" => PrintT(<<"AT", tid, l>>)
+    /\ (~BlockShape) => PrintT(<<"INVFAIL", "BlockShape", tid, l>>)
     /\ AtEnd => PrintT(<<"ACCEPT", tid>>)
 
 \* an execution that ran to completion leaves every thread finished and the semaphore free
